@@ -199,3 +199,54 @@ func VerifC13_DateTime() {
 	}
 	zzverif.Assert(back.Native().Equal(want), "a datetime rendered in the environment's format parses back to a different instant")
 }
+
+// VerifC13_JSONNumber: a number written as a JSON number literal — integers
+// at and beyond the int64 boundaries, 20-digit integers, decimals with up to
+// 19 fraction digits, exponents, each with one arbitrary digit at an
+// arbitrary position — read by JSONToXValue (parse_json, webhook responses)
+// is exactly the number the literal denotes, and writing it back with
+// ToXJSON and reading that again gives the same number.
+// cover: beyond-int64, long-fraction, exponent, small
+func VerifC13_JSONNumber() {
+	menu := []string{"12345678901234567890", "9223372036854775807", "9223372036854775808", "-9223372036854775809",
+		"1.0000000000000000001", "0.1234567890123456789", "123456789.123456789", "1e5", "1.5e-7", "42", "-0.5"}
+	k := zzverif.Choice("literal", len(menu))
+	lit := []byte(menu[k])
+	switch {
+	case k < 4:
+		zzverif.Cover("beyond-int64")
+	case k < 7:
+		zzverif.Cover("long-fraction")
+	case k < 9:
+		zzverif.Cover("exponent")
+	default:
+		zzverif.Cover("small")
+	}
+	// one arbitrary digit at an arbitrary digit position
+	var positions []int
+	for p, c := range lit {
+		if c >= '0' && c <= '9' && !(p > 0 && (lit[p-1] == 'e' || lit[p-1] == '-' && p > 1 && lit[p-2] == 'e')) {
+			positions = append(positions, p)
+		}
+	}
+	p := positions[zzverif.Choice("digit-position", len(positions))]
+	// (a fork per digit: JSON syntax is handled on concrete text, only string contents can stay symbolic)
+	d := byte('0' + zzverif.Choice("digit", 10))
+	// (no leading zero on a multi-digit integer part: not a JSON number)
+	first := 0
+	if lit[0] == '-' {
+		first = 1
+	}
+	zzverif.Assume(!(p == first && d == '0' && len(lit) > first+1 && lit[first+1] >= '0' && lit[first+1] <= '9'))
+	lit[p] = d
+	text := string(lit)
+	want, err := decimal.NewFromString(text)
+	zzverif.Assert(err == nil, "setup: not a decimal")
+	x, isNum := JSONToXValue([]byte(text)).(*XNumber)
+	zzverif.Assert(isNum, "a JSON number was not read as a number")
+	zzverif.Assert(x.Native().Equal(want), "a JSON number was not read as the number it denotes")
+	back, xerr := ToXJSON(x)
+	zzverif.Assert(xerr == nil, "a number could not be written as JSON")
+	y, isNum := JSONToXValue([]byte(back.Native())).(*XNumber)
+	zzverif.Assert(isNum && y.Native().Equal(want), "a number does not survive its JSON form")
+}
